@@ -87,6 +87,34 @@ def run(ctx):
             else:
                 R.violation('d', 'R13', 'KesVerifierStandard::verify: saturating_sub / saturating_add by the constant 1', 'kes:window',
                             'window operands: %s' % consts, kv.loc())
+        # the window is clamped to the last period of the KES scheme (F13: the clamp was 64 for a Sum6 key whose last evolution is 63;
+        # the KES library verifies an out-of-range period as the last one, so announcing 65 accepted a signature made at 63)
+        import re as _re
+        depth = None
+        for (ty, nm) in body.locals:
+            m = _re.search(r'Sum(\d+)Kes', ty)
+            if m:
+                depth = int(m.group(1))
+                break
+        clamps = []
+        for c in body.calls():
+            if any(glob_match('std::cmp::min', n) or glob_match('*::Ord>::min', n) or glob_match('std::cmp::Ord::min', n) or glob_match('*::clamp', n) for n in c.names()):
+                for a in c.args:
+                    v = body.const_of(a)
+                    if isinstance(v, int):
+                        clamps.append(v)
+        inclusive = any(glob_match('*RangeInclusive*::new', n) for c in body.calls() for n in c.names())
+        inst = 'KesVerifierStandard::verify: the tried evolutions are clamped to the last period of the KES scheme'
+        if depth is None:
+            R.missing('d', 'no Sum<N>Kes type in KesVerifierStandard::verify')
+        else:
+            last = 2 ** depth - 1
+            lim = last if inclusive else last + 1
+            if clamps and max(clamps) <= lim:
+                R.ok('d', 'R13', inst, 'Sum%d: last evolution %d, clamp %s (%s range)' % (depth, last, clamps, 'inclusive' if inclusive else 'exclusive'), kv.loc())
+            else:
+                R.violation('d', 'R13', inst, 'kes:last-period', 'Sum%d has evolutions 0..=%d; upper clamp constants found: %s (%s range): an evolution above the last one is '
+                            'verified by the KES library as the last one, widening the +-1 window at the upper bound' % (depth, last, clamps, 'inclusive' if inclusive else 'exclusive'), kv.loc())
     # OpCert::validate: Ok only after the cold key verified the certificate body
     ov = ctx.try_fn('a', OPV)
     if ov is not None:
@@ -226,7 +254,28 @@ def run(ctx):
                     else:
                         R.violation('c', 'R5', inst, 'agg_verifier:id+stake', 'id %s stake %s' % (
                             sorted(o for o in o_id if o.startswith(('call:mithril', 'p#')))[:4], sorted(o for o in o_st if o.startswith(('call:mithril', 'p#')))[:4]), av.loc())
-        ctx.arg_origin('c', '*ProtocolKeyRegistration::init*', '*', 0, require=[], desc='', min_sites=0) if False else None
+        # ... and such a construction must exist: a verified signer that is not rebuilt with the registered id keeps the CLAIMED one
+        # (seed C07-5: `SignerWithStake::from_signer(signer, stake)` alone - the instance above was vacuous)
+        rebuilt = False
+        for g in lav.family():
+            for b in g.body.blocks:
+                if b.cleanup:
+                    continue
+                for (_, pl, rv) in b.stmts:
+                    if rv[0] == 'agg' and rv[2] and rv[2].endswith('::SignerWithStake'):
+                        adt = ws.adt(rv[2])
+                        names = [fd['n'] for fd in adt['variants'][0]['fields']]
+                        if has(fn_origins(g, rv[5][names.index('party_id')], True), 'call:' + REG):
+                            rebuilt = True
+                    # field form: `signer_with_stake.party_id = registered id`
+                    if pl[1] and any(isinstance(pe, tuple) and pe[0] == 'f' and pe[2] == 'party_id' and pe[3] and pe[3].endswith('::SignerWithStake') for pe in pl[1]):
+                        if rv[0] == 'use' and has(fn_origins(g, rv[1], True), 'call:' + REG):
+                            rebuilt = True
+        inst2 = 'MithrilSignerRegistrationVerifier::verify: the verified signer is rebuilt with the party id returned by the registration'
+        if rebuilt:
+            R.ok('c', 'R5', inst2, '', av.loc())
+        else:
+            R.violation('c', 'R5', inst2, 'agg_verifier:id-rebuilt', 'no SignerWithStake is given the registered (cold-key derived) party id: the stored signer keeps the id claimed in the message', av.loc())
 
     # ---- (e)
     ctx.r1('e', LEADER, Sink('SignerRegistrationVerifier::verify', ['*::SignerRegistrationVerifier::verify'], 'ok'))
